@@ -30,6 +30,7 @@ type GenConfig struct {
 	CustomOptions bool // a file defining option extensions + uses of them
 	FileOptions   bool
 	Reserved      bool
+	EnumAliases   bool // allow_alias enums with several names per number
 	NamedModules  bool
 	Streaming     bool // streaming RPCs (breaks UNARY_RPC cleanliness)
 	SyntaxUnspec  bool // allow files without a syntax statement
@@ -46,7 +47,7 @@ func DefaultConfig() GenConfig {
 	return GenConfig{
 		MaxModules: 3, MaxPackages: 4, MaxFiles: 6, MaxMessages: 4, MaxNested: 2, MaxDepth: 2, MaxFields: 6, MaxEnums: 2,
 		Services: true, Extensions: true, Groups: true, WKT: true, UnusedImports: true, PublicImports: true,
-		FileOptions: true, Reserved: true, NamedModules: true, Streaming: true, SyntaxUnspec: true,
+		FileOptions: true, Reserved: true, EnumAliases: true, NamedModules: true, Streaming: true, SyntaxUnspec: true,
 	}
 }
 
@@ -575,6 +576,16 @@ func (g *gen) genEnum(f *File, scope string) *Enum {
 		v.Options = g.customOpts("EnumValueOptions", f)
 		e.Values = append(e.Values, v)
 	}
+	if g.cfg.EnumAliases && !g.cfg.Styled && g.pct("enumalias", 25) {
+		// one or two more names for existing numbers
+		e.Options = append(e.Options, Option{Name: "allow_alias", Value: "true"})
+		for k := g.intn("aliases", 1, 2); k > 0; k-- {
+			of := e.Values[g.intn("aliasof", 0, len(e.Values)-1)]
+			a := &EnumValue{ID: g.id("val"), Number: of.Number, Name: prefix + strings.ToUpper(g.word())}
+			a.Comment = g.comment("value", a.Name)
+			e.Values = append(e.Values, a)
+		}
+	}
 	if g.cfg.Reserved && g.pct("enumreserved", 30) {
 		var start int32
 		for {
@@ -712,10 +723,13 @@ func (g *gen) fillMessage(f *File, m *Message, full string) {
 		}
 		// options
 		is64 := fld.Type == "int64" || fld.Type == "uint64" || fld.Type == "sint64" || fld.Type == "fixed64" || fld.Type == "sfixed64"
-		if fld.TypeKind == "scalar" && fld.MapKey == "" && isProto2ish(f.Syntax) && fld.Label == LabelOptional && !cfg.Styled && (g.pct("default", 20) || (is64 && g.pct("default64", 40))) {
+		if fld.TypeKind == "scalar" && fld.MapKey == "" && isProto2ish(f.Syntax) && fld.Label == LabelOptional && !cfg.Styled && (g.pct("default", 20) || ((is64 || fld.Type == "float" || fld.Type == "double") && g.pct("default64", 40))) {
 			def := defaultFor(fld.Type, g.intn("defval", 1, 9))
 			if big, ok := BigDefaults[fld.Type]; ok && g.pct("bigdefault", 60) {
 				def = big[g.intn("bigdefaultidx", 0, len(big)-1)]
+			}
+			if (fld.Type == "float" || fld.Type == "double") && g.pct("specialfloat", 40) {
+				def = []string{"nan", "inf", "-inf"}[g.intn("specialfloatidx", 0, 2)]
 			}
 			fld.Options = append(fld.Options, Option{"default", def})
 		}
